@@ -80,6 +80,28 @@ CLAIMED = {
         "typestate, dispatch-table, key writer/reader and effect analyses over the ast + README/YAML/CSV-header artefact checks",
         "other",
     ),
+    "C15": (
+        "Decides the formula and the selection semantics for all inputs: inside the single pass over the table the numerator "
+        "receives min(1, ratio) x population and the denominator population in one basic block (zero-initialised, written "
+        "nowhere else, all skips before them), returned in slots 1-3; the selection function, abstractly evaluated on lists "
+        "of 0-3 symbolic codes for every '!'-pattern, returns the documented inclusion/exclusion lists and the caller applies "
+        "them; iso3 and country are unique in the shipped table. 0 <= aggregate <= 1 follows for a non-negative ratio.",
+        "ratio non-negative (objective lowBound 0, C01) and finite (NaN rows are skipped). " + TRUST,
+        "block-structure/def-use rules on the ast + abstract evaluation of the selection function over symbolic list shapes",
+        "other",
+    ),
+    "C17": (
+        "Exhaustive over the shipped artefact (164 x 211 cells): one complete row per expected country, no missing values, "
+        "every bound asserted by verify_country_data (read from its AST), reductions >= -1, seasonality shares in 0..1 summing "
+        "to one, fractions in 0..1, quantities non-negative. Pipeline wiring: every create script runs and the merge runs "
+        "last; tables written = merged = shipped; inner join with null and country-set assertions; every column the model "
+        "reads exists. Averaging helper: all accept/reject patterns of symbolic vectors of length 1-3 give the renormalised "
+        "weighted mean of the accepted entries or the sentinel; boundary literals decide the rejection thresholds. NOT "
+        "decided: that re-running the scripts on the raw data reproduces the tables (needs pandas/openpyxl execution).",
+        "The reproduction clause of C17 is not claimed (DESIGN.md section 6). " + TRUST,
+        "artefact (CSV/shell) checks driven by bounds read from the ast + abstract evaluation of the averaging helper",
+        "other",
+    ),
 }
 
 NOT_APPLICABLE = {
